@@ -93,6 +93,15 @@ def prepare_gdd(weather_df, sim_start, sim_end, gdd, crop, sum_fun):
         # get cumulative GDD for current season
         gdd_cum=np.cumsum(season_data['gdd'])
 
+        # a season cut short by the end of the simulation period (or a crop that
+        # needs the whole year) has no record for its later growth stages and
+        # cannot contribute to the mean/median phenology
+        last_stage_cd = max(int(crop.MaturityCD), int(crop.HIendCD), int(crop.SenescenceCD))
+        if crop.CropType == 3:
+            last_stage_cd = max(last_stage_cd, int(crop.FloweringEndCD))
+        if len(gdd_cum) <= last_stage_cd:
+            continue
+
         # Find GDD equivalent for each crop calendar day growth stage
         gdd_lists['Emergence'].append(gdd_cum.iloc[int(crop.EmergenceCD)])
         gdd_lists['Canopy10Pct'].append(gdd_cum.iloc[int(crop.Canopy10PctCD)])
@@ -112,6 +121,8 @@ def prepare_gdd(weather_df, sim_start, sim_end, gdd, crop, sum_fun):
             gdd_lists['FloweringEnd'].append(flowering_end)
             # Duration of flowering (gdd's)
             gdd_lists['FloweringDuration'].append(flowering_end - crop.HIstart)
+
+    assert len(gdd_lists['Maturity']) > 0, "not enough growing degree days in simulation to reach maturity: no season in the simulation period is long enough to convert the crop calendar (SwitchGDD)"
 
     # calculate mean/median of GDD growth stages using dictionary logic,
     # set the attribute to update the crop object
